@@ -402,7 +402,7 @@ defvjp(anp.kron, partial(grad_kron, 0), partial(grad_kron, 1))
 
 def grad_transpose(ans, x, axes=None):
     if axes is not None:
-        axes = anp.argsort(axes)
+        axes = anp.argsort(onp.mod(axes, anp.ndim(x)))
     return lambda g: anp.transpose(g, axes)
 
 
